@@ -202,6 +202,50 @@ def table_formal(ff, residues, neutral=False):
     return r
 
 
+def table_strands(ff, kind, lengths):
+    """nucleic-acid strands with free 5'/3' ends carry -1 per phosphate (the 5' phosphate is not
+    modelled: n-1 phosphates), termini flagged on exactly the two ends, everything parameterised"""
+    import itertools
+
+    from pdb2pqr import main
+
+    bases = ["DA", "DC", "DG", "DT"] if kind == "dna" else ["RA", "RC", "RG", "RU"]
+    rows = 0
+    violations = []
+    samples = []
+    for n in lengths:
+        seqs = [list(p) for p in itertools.product(bases, repeat=n)] if n <= 2 else [[bases[(i + k) % 4] for i in range(n)] for k in range(4)]
+        for seq in seqs:
+            rows += 1
+            case = {"ff": ff, "strand": "-".join(seq)}
+            try:
+                bm, defn = fixtures.prepared(fixtures.nucleic_lines(seq))
+                args = fixtures.Args(ff=ff, pka_method=None, debump=True, opt=True)
+                r = main.non_trivial(args, bm, None, defn, False)
+            except Exception as e:  # noqa: BLE001
+                violations.append({"label": "strand-processed", "values": case, "reproduced": True, "replay_detail": f"{type(e).__name__}: {str(e)[:120]}"})
+                continue
+            if r["missed_residues"]:
+                violations.append({"label": "strand-parameterised", "values": case, "reproduced": True, "replay_detail": f"unassigned atoms {[(a.residue.name, a.name) for a in r['missed_residues']][:6]}"})
+                continue
+            total = sum(x.charge for x in bm.residues)
+            if abs(total + (n - 1)) > 1e-3:
+                violations.append({"label": "minus-one-per-phosphate", "values": case, "reproduced": True, "replay_detail": f"strand of {n} nucleotides ({n - 1} phosphates) carries {total}: {[(x.ffname, x.charge) for x in bm.residues]}"})
+            five = [i for i, x in enumerate(bm.residues) if getattr(x, "is5term", 0)]
+            three = [i for i, x in enumerate(bm.residues) if getattr(x, "is3term", 0)]
+            if five != [0] or three != [n - 1]:
+                violations.append({"label": "nucleic-termini-on-strand-ends", "values": case, "reproduced": True, "replay_detail": f"5' flags on {five}, 3' flags on {three}"})
+            for i, x in enumerate(bm.residues):
+                if 0 < i < n - 1 and abs(x.charge + 1) > 1e-3:
+                    violations.append({"label": "internal-nucleotide-minus-one", "values": case, "reproduced": True, "replay_detail": f"internal nucleotide {x.ffname} carries {x.charge}"})
+            if len(samples) < 2:
+                samples.append({**case, "total": total})
+    return {"table_rows": rows, "distinct": rows, "violations": violations, "samples": samples}
+
+
+NA_FFS = {"dna": ["amber", "charmm", "tyl06"], "rna": ["amber", "charmm", "parse", "tyl06"]}
+
+
 def obligations(tier):
     obs = [
         *[Obligation(f"termini-kinds-first={KINDS[k]}", h_termini, dict(layout="kinds", first=k), group="termini", time_cap=3000, max_paths=400000) for k in range(len(KINDS))],
@@ -214,6 +258,9 @@ def obligations(tier):
     for ff in c01.FFS:
         residues = list(c01.STATES) if tier == "thorough" else ["ASP", "CYS", "LYS", "HIS", "ALA"]
         obs.append(Obligation(f"formal-{ff}", table_formal, dict(ff=ff, residues=residues), kind="table", group="formal"))
+    for kind, ffs in NA_FFS.items():
+        for ff in ffs:
+            obs.append(Obligation(f"strands-{kind}-{ff}", table_strands, dict(ff=ff, kind=kind, lengths=[2, 3] if tier == "quick" else [2, 3, 4, 5]), kind="table", group="strands"))
     obs.append(Obligation("formal-parse-neutral-termini", table_formal, dict(ff="parse", residues=list(c01.STATES) if tier == "thorough" else ["ASP", "CYS", "ALA", "PRO"], neutral=True), kind="table", group="formal"))
     return obs
 
@@ -236,7 +283,7 @@ META = dict(
         "guard: every real charge in (-1000, 1000); residue charge: 1-2 (thorough 3) symbolic atom charges in [-2,2]",
         "formal charges: table lemma (finite, exhaustive over listed rows)",
     ],
-    outside=["nucleic-acid strands (5'/3' termini) in the symbolic part", "the composition 'the pipeline reaches exactly those states' for arbitrary structures (argued from K1 + C06 + C13)"],
+    outside=["nucleic-acid strands in the SYMBOLIC part (they are covered by a table lemma: all 2-mers, rotating 3-5-mers, force fields that define them; single nucleotides and PARSE DNA are not parameterised by pdb2pqr at all)", "the composition 'the pipeline reaches exactly those states' for arbitrary structures (argued from K1 + C06 + C13)"],
     assumptions=["a chain end = first amino acid of a chain / of a segment following an OXT-bearing residue; last amino acid before trailing non-polymer residues; none when N(first)-C(last) < 1.35 A"],
     technique="symbolic execution of the real termini assignment over symbolic chain compositions and closure distances (symx) + SMT verdict per path; symbolic guard; table lemma for formal charges",
 )
